@@ -18,7 +18,7 @@ RULE = (
   "ne/nf/nl/nefc, contact multiset, solver_niter; evaluation = one (world, step); non-trivial = worlds differ in contact count and some world has nefc>0"
 )
 ASSUMPTIONS = ["ample capacities (cases with any capacity overflow bit are discarded and counted)", "CPU device, canonical thread order"]
-BUDGET = {"quick": dict(examples=200, seconds=420, workers=16), "thorough": dict(examples=4000, seconds=1500, workers=16)}
+BUDGET = {"quick": dict(examples=256, seconds=420, workers=16), "thorough": dict(examples=4000, seconds=1500, workers=16)}
 
 _FIELDS = ["qpos", "qvel", "act", "qacc", "qacc_warmstart", "time", "sensordata", "qfrc_constraint", "qfrc_actuator", "xpos", "subtree_com"]
 _CAP = int(OT.NEFC | OT.NJMAX_NNZ | OT.BROADPHASE | OT.NARROWPHASE | OT.CCD | OT.NVMAX | OT.HFIELD | OT.EPA_HORIZON | OT.CONTACT_MATCH)
@@ -29,13 +29,13 @@ def strategy(tier):
     dict(
       cfg=gen.rich_cfg(),
       opt=gen.option_strategy(),
-      nworld=st.integers(2, 5),
+      nworld=st.sampled_from([2, 3, 3, 4, 5]),
       perm_seed=st.integers(0, 1000),
       state_seed=st.integers(0, 10**6),
       nstep=st.integers(1, 6),
       # sleeping enabled (Newton): a drawn fraction of each world's islands / unconstrained trees starts asleep, differently per world, so that worlds wake
       # (by contact, in the second collision pass) at different steps
-      sleep=st.sampled_from([None, None, 0.5, 0.8]),
+      sleep=st.sampled_from([None, None, 0.5, 0.8, 0.8]),
     )
   )
 
